@@ -194,6 +194,14 @@ pub fn guard<T>(
             let (loc, msg) = LAST_PANIC
                 .with(|p| p.borrow_mut().take())
                 .unwrap_or_else(|| ("?".into(), "?".into()));
+            if loc.starts_with("src/") || loc.contains("/verif/harness/") {
+                // a panic in the harness itself is a harness bug, never a
+                // violation of the property
+                return Err(Failure {
+                    sig: format!("{what}/HARNESS-PANIC"),
+                    msg: format!("harness code panicked at {loc}: {msg}"),
+                });
+            }
             Err(Failure {
                 sig: format!("{what}/{}", panic_sig(&loc, &msg)),
                 msg: format!("{what} panicked at {loc}: {msg}"),
@@ -377,6 +385,10 @@ impl Recorder {
         case: &C,
     ) -> bool {
         let full = format!("{check}/{}", f.sig);
+        if f.sig.ends_with("HARNESS-PANIC") {
+            self.health_error(format!("{check}: {}", f.msg));
+            return true;
+        }
         if self.is_known(&full).is_some() {
             let mut k = self.known_hits.lock().unwrap();
             let e = k.entry(full).or_insert((0, f.msg.clone()));
